@@ -24,8 +24,18 @@ def _single_defs(fnode):
                 cnt[t.id] = cnt.get(t.id, 0) + 1
                 val[t.id] = s.value
             elif isinstance(t, ast.Tuple) and all(isinstance(e, ast.Name) for e in t.elts):
+                comp = s.value if isinstance(s.value, (ast.GeneratorExp, ast.ListComp)) and len(s.value.generators) == 1 \
+                    and not s.value.generators[0].ifs and isinstance(s.value.generators[0].target, ast.Name) \
+                    and isinstance(s.value.generators[0].iter, (ast.Tuple, ast.List)) \
+                    and len(s.value.generators[0].iter.elts) == len(t.elts) else None
                 for i, e in enumerate(t.elts):
                     cnt[e.id] = cnt.get(e.id, 0) + 1
+                    if comp is not None:
+                        # a, b = (f(m) for m in (A, B)):  a = f(A), b = f(B)
+                        from ..symx import copy_replace
+                        var, item = comp.generators[0].target.id, comp.generators[0].iter.elts[i]
+                        val[e.id] = copy_replace(comp.elt, lambda n_, var=var, item=item: item
+                                                 if isinstance(n_, ast.Name) and n_.id == var else None)
                     if isinstance(s.value, ast.Call) and (dotted(s.value.func) or '').split('.')[-1] in ('nonzero', 'where') \
                             and len(s.value.args) == 1 and len(t.elts) == 2:
                         roles[e.id] = i
